@@ -1,6 +1,7 @@
 """Which unit modules decide which property, and the per-property scope text."""
 PROPS = {
     "C07": ["u_hier"],
+    "C02": ["u_tables"],
 }
 COMMON_ASSUME = [
     "CBMC 6.11 and its C semantics are trusted; double is IEEE-754 binary64 round-to-nearest",
@@ -13,6 +14,11 @@ PROP_META = {
   "level_note": "Trusted: CBMC, tsg2c extraction rules. Bounded: pwc point index (ternary arithmetic). Not decided: see evidence.not_decided_parts_of_the_property.",
   "assumptions": COMMON_ASSUME,
   "not_decided": ["direction-selective / fds strategies, completeToLower, global/sequence surplus refinement, anisotropic weight inference"],
+ },
+ "C02": {
+  "level_text": "Proof of a stated part: the declared 1-D quadrature exactness (getQExact) never exceeds an independent theoretical bound of the rule, for all 39 non-custom rules + Fourier and all levels without int overflow; point counts strictly increase. The weights, tensor assembly and integrate() are not decided.",
+  "level_note": "Trusted: CBMC, tsg2c, the theory table in contracts/tables.c (cross-checked natively on levels 0-6). Not decided: nodes/weights (eigen-solves, cos), computeTensorWeights, integrate, custom/exotic rules, domain transforms (C10).",
+  "assumptions": COMMON_ASSUME, "not_decided": ["1-D nodes and weights", "computeTensorWeights / tensor assembly", "integrate()", "custom tabulated and exotic rules"],
  },
 }
 PENDING = "not built yet in this round (planned, see DESIGN.md section 8); no check is registered, so nothing is claimed"
